@@ -29,7 +29,10 @@ func VerifDir() string {
 // ---------------------------------------------------------------- PRNG
 
 // Rand is SplitMix64: tiny, seedable, reproducible across Go versions.
-type Rand struct{ s uint64 }
+type Rand struct {
+	s     uint64
+	Small bool // generator hint (used by the path generator): draw numbers from a tiny alphabet
+}
 
 func (r *Rand) Uint64() uint64 {
 	r.s += 0x9e3779b97f4a7c15
